@@ -1,9 +1,13 @@
 
+val implb : bool -> bool -> bool
+
 val negb : bool -> bool
 
 type nat =
 | O
 | S of nat
+
+val fst : ('a1 * 'a2) -> 'a1
 
 val snd : ('a1 * 'a2) -> 'a2
 
@@ -49,6 +53,8 @@ module Coq_Pos :
 
   val pred_double : positive -> positive
 
+  val pred_N : positive -> n
+
   type mask = Pos.mask =
   | IsNul
   | IsPos of positive
@@ -84,7 +90,11 @@ module Coq_Pos :
 
   val coq_land : positive -> positive -> n
 
+  val coq_lxor : positive -> positive -> n
+
   val shiftl : positive -> n -> positive
+
+  val testbit : positive -> n -> bool
 
   val iter_op : ('a1 -> 'a1 -> 'a1) -> positive -> 'a1 -> 'a1
 
@@ -98,6 +108,8 @@ module N :
   val succ_double : n -> n
 
   val double : n -> n
+
+  val pred : n -> n
 
   val add : n -> n -> n
 
@@ -129,22 +141,44 @@ module N :
 
   val coq_land : n -> n -> n
 
+  val coq_lxor : n -> n -> n
+
   val shiftl : n -> n -> n
 
   val shiftr : n -> n -> n
 
+  val testbit : n -> n -> bool
+
   val to_nat : n -> nat
 
   val of_nat : nat -> n
+
+  val b2n : bool -> n
+
+  val ones : n -> n
+
+  val lnot : n -> n -> n
  end
+
+val nth : nat -> 'a1 list -> 'a1 -> 'a1
 
 val nth_error : 'a1 list -> nat -> 'a1 option
 
 val concat : 'a1 list list -> 'a1 list
 
+val map : ('a1 -> 'a2) -> 'a1 list -> 'a2 list
+
+val forallb : ('a1 -> bool) -> 'a1 list -> bool
+
+val filter : ('a1 -> bool) -> 'a1 list -> 'a1 list
+
+val combine : 'a1 list -> 'a2 list -> ('a1 * 'a2) list
+
 val firstn : nat -> 'a1 list -> 'a1 list
 
 val skipn : nat -> 'a1 list -> 'a1 list
+
+val seq : nat -> nat -> nat list
 
 val repeat : 'a1 -> nat -> 'a1 list
 
@@ -515,3 +549,273 @@ val strip_str_pieces : n list -> piece list option
 
 val strip_str_chunks :
   n list list -> state -> (piece list list * state) option
+
+val effect_plain : n
+
+val eff_bold : n
+
+val eff_dimmed : n
+
+val eff_italic : n
+
+val eff_underline : n
+
+val eff_blink : n
+
+val eff_invert : n
+
+val eff_hidden : n
+
+val eff_strikethrough : n
+
+val effect_consts : (n list * n) list
+
+val metadata : (n list * n list) list
+
+type ansi_color =
+| Black
+| Red
+| Green
+| Yellow
+| Blue
+| Magenta
+| Cyan
+| White
+| BrightBlack
+| BrightRed
+| BrightGreen
+| BrightYellow
+| BrightBlue
+| BrightMagenta
+| BrightCyan
+| BrightWhite
+
+val all_ansi : ansi_color list
+
+val ansi_disc : ansi_color -> n
+
+val ansi_fg_str : ansi_color -> n list
+
+val ansi_bg_str : ansi_color -> n list
+
+val ansi_bright_on : ansi_color -> ansi_color
+
+val ansi_bright_off : ansi_color -> ansi_color
+
+val ansi_is_bright : ansi_color -> bool
+
+val ansi256_into_ansi : n -> ansi_color option
+
+val ansi256_from_ansi : ansi_color -> n
+
+type conv_method =
+| Conv_bold
+| Conv_dimmed
+| Conv_italic
+| Conv_underline
+| Conv_blink
+| Conv_invert
+| Conv_hidden
+| Conv_strikethrough
+
+val all_conv : conv_method list
+
+val conv_name : conv_method -> n list
+
+val conv_effect : conv_method -> n
+
+val nEFF : nat
+
+val idxs : n list
+
+val mem : n -> n -> bool
+
+val singleton : n -> n
+
+val members : n -> n list
+
+val chi : n -> bool list
+
+val of_chi : bool list -> n
+
+val zipb : (bool -> bool -> bool) -> bool list -> bool list -> bool list
+
+val v_union : bool list -> bool list -> bool list
+
+val v_diff : bool list -> bool list -> bool list
+
+val v_subset : bool list -> bool list -> bool
+
+val v_empty : bool list -> bool
+
+val v_members : bool list -> n list
+
+val sp_is_plain : n -> bool
+
+val sp_iter_chi : bool list -> n list
+
+val effect_names : n list list
+
+val effect_name : n -> n list
+
+val join : n list -> n list list -> n list
+
+val txt_open : n list
+
+val txt_bar : n list
+
+val txt_close : n list
+
+val sp_debug : n -> n list
+
+val upper : n -> n
+
+val bytes_eqb : n list -> n list -> bool
+
+val index_of : n list -> n list list -> n -> n option
+
+val conv_names : n list list
+
+val sp_named_effect : n list -> n
+
+val hue : n -> n
+
+val is_bright_ix : n -> bool
+
+val with_bright : n -> bool -> n
+
+val sp_into_ansi : n -> n option
+
+val sp_from_ansi : n -> n
+
+type 'c sstyle = { sp_fg : 'c option; sp_bg : 'c option; sp_ul : 'c option;
+                   sp_eff : n }
+
+val sp_eff : 'a1 sstyle -> n
+
+type cfield =
+| FFg
+| FBg
+| FUl
+
+val sp_get : cfield -> 'a1 sstyle -> 'a1 option
+
+val sp_setc : cfield -> 'a1 option -> 'a1 sstyle -> 'a1 sstyle
+
+val sp_set_eff : n -> 'a1 sstyle -> 'a1 sstyle
+
+val sp_plain : 'a1 sstyle
+
+val is_none : 'a1 option -> bool
+
+val sp_no_colours : 'a1 sstyle -> bool
+
+val sp_eq_effects : 'a1 sstyle -> n -> bool
+
+val sp_style_is_plain : 'a1 sstyle -> bool
+
+val e_new : n
+
+val e_is_plain : n -> bool
+
+val e_contains : n -> n -> bool
+
+val e_insert : n -> n -> n
+
+val u16_not : n -> n
+
+val e_remove : n -> n -> n
+
+val e_clear : n -> n
+
+val e_set : n -> n -> bool -> n
+
+val e_bitor : n -> n -> n
+
+val e_bitor_assign : n -> n -> n
+
+val e_sub : n -> n -> n
+
+val e_sub_assign : n -> n -> n
+
+val shl1_u16 : n -> n option
+
+val iter_loop : (n -> n -> 'a1) -> nat -> n -> n -> 'a1 list option
+
+val e_iter : n -> n list option
+
+val e_index_iter : n -> n list option
+
+val str_effects_open : n list
+
+val str_bar : n list
+
+val str_close : n list
+
+val debug_body : nat -> n list -> n list option
+
+val e_debug : n -> n list option
+
+val e_of_mask_from : n -> (n list * n) list -> n -> n
+
+val e_of_mask : n -> n
+
+type color =
+| CoAnsi of ansi_color
+| CoAnsi256 of n
+| CoRgb of n * n * n
+
+val ansi_bright : ansi_color -> bool -> ansi_color
+
+val ansi_eqb : ansi_color -> ansi_color -> bool
+
+val color_eqb : color -> color -> bool
+
+val ocolor_eqb : color option -> color option -> bool
+
+val ansi256_from : ansi_color -> n
+
+val color_repr : color -> n * (n * (n * n))
+
+val color_of_repr : n -> n -> n -> n -> color option
+
+type style = { st_fg : color option; st_bg : color option;
+               st_ul : color option; st_eff : n }
+
+val st_new : style
+
+val st_fg_color : style -> color option -> style
+
+val st_bg_color : style -> color option -> style
+
+val st_underline_color : style -> color option -> style
+
+val st_effects : style -> n -> style
+
+val st_get_fg_color : style -> color option
+
+val st_get_bg_color : style -> color option
+
+val st_get_underline_color : style -> color option
+
+val st_get_effects : style -> n
+
+val st_conv : conv_method -> style -> style
+
+val o_is_none : 'a1 option -> bool
+
+val st_is_plain : style -> bool
+
+val st_from_effects : n -> style
+
+val st_bitor : style -> n -> style
+
+val st_bitor_assign : style -> n -> style
+
+val st_sub : style -> n -> style
+
+val st_sub_assign : style -> n -> style
+
+val style_eqb : style -> style -> bool
+
+val st_eq_effects : style -> n -> bool
